@@ -30,6 +30,7 @@ From FB.Proofs Require Import ReplayLaws BuildFileLaws CoreRebuildDefs CoreRebui
 From FB.Proofs Require BookGenLaws.
 From FB.Proofs Require ExecGenLaws.   (* T1g: the model routines are equal to the translation of the source (Gen/ExecGen.v) *)
 From FB.Proofs Require CacheGenLaws.   (* T1g: the model routines are equal to the translation of the source (Gen/CacheGen.v) *)
+From FB.Proofs Require OpsGenLaws.   (* T1g: build_file*, subbuild, queries, cache validation of file_builder.py = Model/Builder.v (Gen/OpsGen.v) *)
 Import ListNotations.
 
 Theorem C05_unchanged_rebuild_hits_everything : forall fs cf old vers clock nextid root nm v s1 clock' nextid',
